@@ -63,9 +63,9 @@ func (x *fnCtx) rederive(st *State, fr *Frame, in ssa.Instruction, v ssa.Value) 
 		if i.Op != token.MUL && i.Op != token.ARROW {
 			return x.unop(st, fr, i)
 		}
-		if i.Op == token.MUL && !x.writes["*"] {
-			// a load from a heap component that this function never writes has the same value
-			// everywhere in the function
+		if i.Op == token.MUL && !x.writes["*"] && fr.isTop {
+			// a load whose heap component is not written inside the current loop, and all of
+			// whose writes happen before the load, has the value the component has at the header
 			p := x.getVal(st, fr, i.X)
 			a := x.addrOf(p)
 			if a.Kind == AObj || a.Kind == ACell {
@@ -76,8 +76,19 @@ func (x *fnCtx) rederive(st *State, fr *Frame, in ssa.Instruction, v ssa.Value) 
 					base = cellHeapName(a.Elem)
 				}
 				stable := true
+				blk := i.Block()
+				pos := 0
+				for k, i2 := range blk.Instrs {
+					if i2 == ssa.Instruction(i) {
+						pos = k
+					}
+				}
 				for _, l := range layout(a.Elem) {
-					if x.writes[base+l.Suffix] {
+					n := base + l.Suffix
+					if !x.writes[n] {
+						continue
+					}
+					if x.curHeader == nil || x.writtenInLoop(n, x.curHeader) || !x.writesDominate(n, blk, pos) {
 						stable = false
 					}
 				}
@@ -267,6 +278,9 @@ func (x *fnCtx) runInstrs(st *State, b *ssa.BasicBlock, from int) {
 		}
 		fr := st.top()
 		in := b.Instrs[i]
+		if fr.isTop {
+			x.curBlock, x.curIdx = b, i
+		}
 		switch v := in.(type) {
 		case *ssa.Phi:
 			continue
@@ -276,6 +290,11 @@ func (x *fnCtx) runInstrs(st *State, b *ssa.BasicBlock, from int) {
 			}
 			if obj := v.Object(); obj != nil {
 				if _, isVar := obj.(*types.Var); isVar {
+					if old, ok := fr.names[obj.Name()]; ok && old.isAddr && !v.IsAddr {
+						if al, isAlloc := allocOf(fr, old.v); isAlloc && al.Comment == obj.Name() {
+							continue // keep the binding to the variable's cell
+						}
+					}
 					fr.names[obj.Name()] = nameBind{v: x.getVal(st, fr, v.X), isAddr: v.IsAddr}
 				}
 			}
@@ -342,6 +361,10 @@ func (x *fnCtx) step(st *State, fr *Frame, in ssa.Instruction) {
 	switch v := in.(type) {
 	case *ssa.Alloc:
 		fr.regs[v] = x.alloc(st, v)
+		if v.Comment != "" && v.Comment != "complit" && v.Comment != "varargs" && v.Comment != "makeslice" {
+			// an address-taken local: its name denotes the current content of the cell
+			fr.names[v.Comment] = nameBind{v: fr.regs[v], isAddr: true}
+		}
 	case *ssa.BinOp:
 		fr.regs[v] = x.binop(st, fr, v, false)
 	case *ssa.UnOp:
@@ -589,6 +612,20 @@ func (x *fnCtx) fieldAddr(st *State, fr *Frame, v *ssa.FieldAddr, rederive bool)
 	case AObj:
 		na := &Addr{Kind: AObj, Base: base.Base, Root: base.Root, Path: append(append([]int(nil), base.Path...), v.Field), Elem: ft}
 		return &Val{T: v.Type(), L: []*Term{fieldAddrTerm(na)}, A: na}
+	case AElem, ACell:
+		root := base.ERoot
+		if root == nil {
+			root = base.Elem
+		}
+		if _, ok := transparentStruct(root); ok {
+			na := &Addr{Kind: base.Kind, Base: base.Base, Idx: base.Idx, Elem: ft, Owner: base.Owner, ERoot: root, Sub: append(append([]int(nil), base.Sub...), v.Field)}
+			idx := base.Idx
+			if idx == nil {
+				idx = IntLit(0)
+			}
+			return &Val{T: v.Type(), L: []*Term{App("esub", SInt, base.Base, idx, IntLit(int64(v.Field)))}, A: na}
+		}
+		fallthrough
 	default:
 		// field of an opaque struct (external type): address is an uninterpreted function of the base
 		st2 := p.T.Underlying().(*types.Pointer).Elem().Underlying().(*types.Struct)
@@ -1332,6 +1369,7 @@ func (x *fnCtx) rangeInit(st *State, fr *Frame, v *ssa.Range) *Val {
 	} else if mt, ok := m.T.Underlying().(*types.Map); ok {
 		if ks, ok2 := mapSorts(mt); ok2 {
 			info.visited = fmt.Sprintf("$visited.%s.%s", x.short, v.Name())
+			heapSorts[info.visited] = ArrSort(ks, SBool)
 			x.setHeap(st, info.visited, ConstArray(ArrSort(ks, SBool), False))
 			x.setHeap(st, "$itercnt."+x.short, IntLit(0))
 			heapSorts["$itercnt."+x.short] = SInt
@@ -1456,4 +1494,15 @@ func (x *fnCtx) atStoreClauses(st *State, fr *Frame, in *ssa.Store, p *Val, a *A
 		g := x.evalSpecBool(env, cl.Expr)
 		x.addVC(st, x.short, "at_store", cl.Ord, fmt.Sprintf("%d", x.ord(fr, in)), g, fmt.Sprintf("store through %s: %s", cl.Arg, cl.Text), x.eng.posStr(in.Pos()))
 	}
+}
+
+func allocOf(fr *Frame, v *Val) (*ssa.Alloc, bool) {
+	for k, r := range fr.regs {
+		if r == v {
+			if al, ok := k.(*ssa.Alloc); ok {
+				return al, true
+			}
+		}
+	}
+	return nil, false
 }
